@@ -169,6 +169,9 @@ def _leaf_form(R, feats):
         opts += [("ann", ("tuple", [("base", "int"), ("base", "int")]), ("Interval", mn, mx, mx + R.randint(1, 4)))]
     if "weightedstr" in feats:
         opts += [("ann", ("base", "str"), ("WeightedStr", [[0.5, 0.5, 0.0], [0.0, 0.25, 0.75]][: R.randint(1, 2)], ["a", "c", "g"]))]
+    if "nested" in feats:
+        opts += [("ann", ("list", ("list", ("ann", ("base", "int"), ("IntRange", 0, 2)))), ("ListSize", 2, 3)),
+                 ("ann", ("list", ("ann", ("base", "int"), ("IntRange", 3, 5))), ("ListSize", 1, 2))]
     if not opts:
         opts = [("ann", ("base", "int"), ("IntRange", 0, 1))]
     return R.choice(opts)
@@ -188,6 +191,8 @@ def _rec_form(R, feats, abstracts, concretes):
         kinds += ["tuple"]
     if "concrete_ref" in feats and concretes:
         kinds += ["concrete"]
+    if "nested" in feats:
+        kinds += ["list_of_union", "list_of_tuple", "list_of_list", "list_of_refined"]
     k = R.choice(kinds)
     if k == "sym":
         return tgt
@@ -199,6 +204,18 @@ def _rec_form(R, feats, abstracts, concretes):
         return ("ann", ("list", tgt), (mh, lo, lo + R.randint(0, 2)))
     if k == "plainlist":
         return ("list", tgt)
+    if k == "list_of_union":
+        alt = ("sym", R.choice(concretes)) if concretes else ("ann", ("base", "int"), ("IntRange", 0, 1))
+        inner = ("union", [tgt, alt]) if repr(alt) != repr(tgt) else tgt
+        return ("ann", ("list", inner), ("ListSize", 1, 2)) if R.random() < 0.6 else ("list", inner)
+    if k == "list_of_tuple":
+        return ("ann", ("list", ("tuple", [tgt, ("ann", ("base", "int"), ("IntRange", 0, 1))])), ("ListSize", 1, 2))
+    if k == "list_of_list":
+        lo = R.randint(1, 2)
+        return ("ann", ("list", ("ann", ("list", tgt), ("ListSize", 1, 1))), ("ListSize", lo, lo + R.randint(0, 1)))
+    if k == "list_of_refined":
+        lo = R.randint(0, 2)
+        return ("ann", ("list", ("ann", ("base", "int"), ("IntRange", lo, lo + 2))), ("ListSize", 1, 3))
     if k == "union":
         alts = [tgt]
         if concretes and R.random() < 0.5:
@@ -219,7 +236,7 @@ def _rec_form(R, feats, abstracts, concretes):
     raise AssertionError(k)
 
 
-ALL_FEATS = {"int", "float", "bool", "str", "intrange", "intlist", "floatrange", "floatlist", "varrange", "strsize",
+ALL_FEATS = {"nested", "int", "float", "bool", "str", "intrange", "intlist", "floatrange", "floatlist", "varrange", "strsize",
              "interval", "weightedstr", "sizedlist", "plainlist", "union", "tuple", "concrete_ref", "nested_abstract",
              "unreachable", "dependent", "weights"}
 FINITE_FEATS = {"intrange", "intlist", "varrange", "sizedlist", "union", "nested_abstract", "concrete_ref"}
@@ -346,6 +363,27 @@ FIXED = [
 ]
 
 
+FIXED += [
+    # a dependent refinement after a concrete-typed sibling that has a field of the same name
+    {"id": "depnested", "start": "Span", "classes": [
+        _c("Window", "", [("lo", ("ann", ("base", "int"), ("IntRange", 0, 3)))]),
+        _c("Span", "", [("lo", ("ann", ("base", "int"), ("IntRange", 5, 9))), ("inner", ("sym", "Window")),
+                        ("hi", ("ann", ("base", "int"), ("DepIntFrom", "lo", 9)))])]},
+    # concrete start symbol with abstract-typed fields (mutation restarts from the root's stored context)
+    {"id": "concstart", "start": "Prog", "classes": [
+        _c("Stmt", "", abstract=True),
+        _c("Prog", "", [("a", ("sym", "Stmt")), ("b", ("sym", "Stmt"))]),
+        _c("Skip", "Stmt", [("v", I01)]), _c("Not", "Stmt", [("s", ("sym", "Stmt"))]),
+        _c("Blk", "Stmt", [("p", ("sym", "Prog"))])]},
+    # nested generics: list of union, list of tuple, list of list
+    {"id": "nestedgen", "start": "Expr", "classes": [
+        _c("Expr", "", abstract=True), _c("Lit", "Expr", [("v", I01)]),
+        _c("LU", "Expr", [("xs", ("ann", ("list", ("union", [E, ("sym", "Lit")])), ("ListSize", 1, 2)))]),
+        _c("LT", "Expr", [("xs", ("ann", ("list", ("tuple", [E, I01])), ("ListSize", 1, 1)))]),
+        _c("LL", "Expr", [("xs", ("ann", ("list", ("list", I03)), ("ListSize", 2, 3)))])]},
+]
+
+
 def fixed_specs():
     return [dict(s) for s in FIXED]
 
@@ -414,3 +452,57 @@ def build_raw(raw) -> Built:
             "classes": [{"name": n, "abstract": n == raw["start"], "parent": "", "fields": []} for n in raw["names"]],
             "feats": raw.get("feats", [])}
     return Built(spec, mod, raw["source"])
+
+
+def lang_size(spec, d, cap=10 ** 7):
+    """number of programs of depth <= d (budgeting only: decides whether a set comparison is affordable)"""
+    classes = {c["name"]: c for c in spec["classes"]}
+    prods = {}
+    for c in spec["classes"]:
+        prods.setdefault(c["parent"], []).append(c["name"])
+    memo = {}
+
+    def form(f, dd):
+        k = f[0]
+        if k == "base":
+            return 2 if f[1] == "bool" else 1
+        if k == "sym":
+            return sym(f[1], dd)
+        if k == "union":
+            return min(cap, sum(form(x, dd) for x in f[1]))
+        if k == "tuple":
+            n = 1
+            for x in f[1]:
+                n = min(cap, n * form(x, dd))
+            return n
+        if k == "list":
+            e = form(f[1], dd)
+            return min(cap, sum(e ** i for i in range(0, 3)))
+        if k == "ann":
+            mh = f[2]
+            if mh[0] == "IntRange":
+                return mh[2] - mh[1] + 1
+            if mh[0] in ("IntList", "VarRange", "FloatList"):
+                return len(mh[1])
+            if mh[0] in ("ListSize", "ListSizeNoOps"):
+                e = form(f[1][1], dd)
+                return min(cap, sum(e ** i for i in range(mh[1], mh[2] + 1)))
+            return 1
+        return 1
+
+    def sym(name, dd):
+        if (name, dd) in memo:
+            return memo[(name, dd)]
+        c = classes[name]
+        if c["abstract"]:
+            r = min(cap, sum(sym(p, dd) for p in prods.get(name, [])))
+        elif dd < 1:
+            r = 0
+        else:
+            r = 1
+            for _, f in c["fields"]:
+                r = min(cap, r * form(f, dd - 1))
+        memo[(name, dd)] = r
+        return r
+
+    return sym(spec["start"], d)
